@@ -129,7 +129,10 @@ def main():
                         L.build(fails[(n + k) % len(fails)], 'tf')
                 for name, b in goods[k::2]:
                     if name != 'big300':
-                        hb = hexbytes(b())
+                        try:
+                            hb = hexbytes(b())
+                        except Exception as e:
+                            hb = 'FAIL:' + type(e).__name__ + ':' + str(e)[:80]
                         with lock:
                             xres[name].append(hb)
         except BaseException as e:   # noqa
